@@ -88,6 +88,10 @@ pub fn sigs() -> Vec<Sig> {
         Sig { name: "a2b", params: vec![(Field, ab())], opts: vec![], ret: Bool },
         Sig { name: "a2a", params: vec![(Field, ab())], opts: vec![], ret: ab() },
         Sig { name: "mkarr", params: vec![(Field, Bytes)], opts: vec![], ret: MType::array(Bytes) },
+        // no mandatory parameters: `nowi()`, `yes()`, `optb()` / `optb("x")`
+        Sig { name: "nowi", params: vec![], opts: vec![], ret: Int },
+        Sig { name: "yes", params: vec![], opts: vec![], ret: Bool },
+        Sig { name: "optb", params: vec![], opts: vec![(Literal, b(b"dflt"))], ret: Bytes },
     ]
 }
 
@@ -175,6 +179,9 @@ pub fn apply(name: &str, a: &[ArgV]) -> Option<MVal> {
                 vec![MVal::Bytes(v.clone()), MVal::Bytes(v.iter().rev().cloned().collect())],
             )
         }),
+        "nowi" => Some(MVal::Int(42)),
+        "yes" => Some(MVal::Bool(true)),
+        "optb" => by(&a[0]).map(|v| MVal::Bytes(v.clone())),
         _ => panic!("unknown harness function {name}"),
     }
 }
@@ -231,7 +238,7 @@ impls! {
     f_idb => "idb", f_lower => "lower", f_len => "len", f_dropodd => "dropodd", f_isodd => "isodd",
     f_opt2 => "opt2", f_addi => "addi", f_alen => "alen", f_pick => "pick", f_cnt => "cnt",
     f_ipid => "ipid", f_sfx => "sfx", f_emb => "emb", f_b2b => "b2b", f_b2a => "b2a", f_a2b => "a2b",
-    f_a2a => "a2a", f_mkarr => "mkarr",
+    f_a2a => "a2a", f_mkarr => "mkarr", f_nowi => "nowi", f_yes => "yes", f_optb => "optb",
 }
 
 fn kind(k: Kind) -> SimpleFunctionArgKind {
